@@ -1,5 +1,5 @@
 from vlib.runner import Obl
-from props.common import ragged_obligations, vault_obligations, krow_obligations, ktab_obligations, TRUSTED as _T
+from props.common import empty_table_obligations, ragged_obligations, vault_obligations, krow_obligations, ktab_obligations, TRUSTED as _T
 
 PROPERTY = "C07"
 EXPLANATION = (
@@ -43,3 +43,5 @@ for _fn in ['arow_insert_small']:
                            stubs=["/verif/shadow/lxml (symdom)"]))
 
 OBLIGATIONS += ragged_obligations(7)
+
+OBLIGATIONS += empty_table_obligations()
